@@ -32,7 +32,28 @@ var codecDefs = []codecDef{
 }
 
 // c05Text runs one valid UTF-8 text through all six codecs and the protocol-level decoders.
+// refusedFirst makes every codec refuse something (decode of bytes that are invalid for it after a valid
+// prefix; encode of a text outside its repertoire): state left behind by an error path must not leak into the next call.
+func refusedFirst(c *fw.Case) {
+	bad := map[string][]byte{
+		"ASCII":        []byte("JUNK\xff"),
+		"Latin1":       []byte("JUNK"),
+		"UCS2":         {0x00, 0x4a, 0xd8, 0x00},
+		"GB18030":      {0x4a, 0x55, 0x81},
+		"GSM7Unpacked": {0x4a, 0x55, 0x4e, 0x4b, 0x1b, 0x01},
+		"GSM7Packed":   ref.Pack([]byte{0x4a, 0x55, 0x4e, 0x4b, 0x1b, 0x01}),
+	}
+	for _, cd := range codecDefs {
+		fw.Try(func() { _, _ = cd.mk(string(bad[cd.name])).Decode() })
+		fw.Try(func() { _, _ = cd.mk("JUNK\u4e2d\U0001f600\x01").Encode() })
+	}
+	fw.Try(func() { _, _ = protocol.DecodeSMPPCContent(context.Background(), string(bad["GSM7Packed"]), 0) })
+}
+
 func c05Text(c *fw.Case, t string, proto bool) {
+	if c.R.Chance(1, 6) {
+		refusedFirst(c)
+	}
 	tab := ref.GSM7()
 	septets, inGSM := tab.Encode(t)
 	for _, cd := range codecDefs {
